@@ -17,7 +17,8 @@ parameter `sched`.  Proved on the executable manager (`XModel/Manager.lean`, the
 
 The scope is C01's (`Scope`): outside it — two tasks writing below one nested container and feeding each other,
 known finding D1 — the result *does* depend on the order, in the model (`C20_order_matters_outside_scope`) and in
-the code.  `_partial`: the equality of the Cython build and the interpreted build is not a statement about the
+the code.  All theorems of this file are about the hash-seed half only (`_partial` in that sense, whatever their
+names):  the equality of the Cython build and the interpreted build is not a statement about the
 model; both builds are compared with the model and with each other by the check (transcripts over
 {pure, compiled} × PYTHONHASHSEED).  Histories with errors inside `run_tasks` are compared only by the check.
 -/
